@@ -36,6 +36,55 @@ CONTRACTS['Interstitial.diffusivity'] = dict(
     returns=[[ONE], [ONE, ONE]],
     assumed=['bias_solver(omega, b) = omega^-1 b or pinv(omega) b: degree 0 for omega, b of degree 1 (its definition in __init__ is checked: relative cutoff only)'])
 
+from vf.pyframe.degree import LOG
+FE = LOG(-1)        # a scaled transition-state free energy: every rate x lambda shifts it by -ln(lambda)
+
+CONTRACTS['VacancyMediated.preene2betafree'] = dict(
+    relpath='onsager/OnsagerCalc.py', qualname='VacancyMediated.preene2betafree',
+    # the family "every rate x lambda" applied where a user applies it: the three transition-state prefactors
+    params={'kT': ZEROD, 'preV': ZEROD, 'eneV': ZEROD, 'preS': ZEROD, 'eneS': ZEROD, 'preSV': ZEROD, 'eneSV': ZEROD,
+            'preT0': ONE, 'eneT0': ZEROD, 'preT1': ONE, 'eneT1': ZEROD, 'preT2': ONE, 'eneT2': ZEROD, 'ignoredextraarguments': NA},
+    returns=[ZEROD, ZEROD, ZEROD, FE, FE, FE])
+_P2B = dict(relpath='onsager/OnsagerCalc.py', qualname='VacancyMediated.preene2betafree')
+_names = ['kT', 'preV', 'eneV', 'preS', 'eneS', 'preSV', 'eneSV', 'preT0', 'eneT0', 'preT1', 'eneT1', 'preT2', 'eneT2']
+def _fam(**deg): return dict({n: ZEROD for n in _names}, ignoredextraarguments=NA, **deg)
+# the reference choices of the property, each as its own transformation family (lambda = the common factor); every output is unchanged
+CONTRACTS['VacancyMediated.preene2betafree[vacancy prefactors scaled together]'] = dict(_P2B, params=_fam(preV=ONE, preT0=ONE, preT1=ONE, preT2=ONE), returns=[ZEROD] * 6)
+CONTRACTS['VacancyMediated.preene2betafree[solute prefactors scaled together]'] = dict(_P2B, params=_fam(preS=ONE, preT1=ONE, preT2=ONE), returns=[ZEROD] * 6)
+CONTRACTS['VacancyMediated.preene2betafree[energies and temperature scaled together]'] = dict(
+    _P2B, params=_fam(kT=ONE, eneV=ONE, eneS=ONE, eneSV=ONE, eneT0=ONE, eneT1=ONE, eneT2=ONE), returns=[ZEROD] * 6)
+CONTRACTS['VacancyMediated._symmetricandescaperates'] = dict(
+    relpath='onsager/OnsagerCalc.py', qualname='VacancyMediated._symmetricandescaperates',
+    params={'self': NA, 'bFV': ZEROD, 'bFSVkinetic': ZEROD, 'bFT0': FE, 'bFT1': FE, 'bFT2': FE},
+    returns=[ONE] * 6)
+# with these two, the chain  preene2betafree -> Lij (which hands bFT* only to _symmetricandescaperates and to the Green-function
+# calculator)  carries a uniform factor on the rates to a uniform factor on the four tensors.
+
+_G = dict(relpath='onsager/GFcalc.py')
+CONTRACTS['GFCrystalcalc.SymmRates'] = dict(_G, qualname='GFCrystalcalc.SymmRates', min_obligations=1, params={'self': NA, 'pre': ZEROD, 'betaene': ZEROD, 'preT': ONE, 'betaeneT': ZEROD}, returns=[ONE])
+CONTRACTS['GFCrystalcalc.Diffusivity'] = dict(_G, qualname='GFCrystalcalc.Diffusivity', params={'self': NA, 'omega_Taylor_D': ZEROD},
+                                              fields={'self.maxrate': ONE, 'self.D': ONE}, globals={'T3D': NA, 'T2D': NA}, returns=[ONE],
+                                              assumed=['the reduced Taylor expansion handed in is built from rates divided by maxrate (SetRates: fields_after)'])
+CONTRACTS['GFCrystalcalc.biascorrection'] = dict(_G, qualname='GFCrystalcalc.biascorrection', params={'self': NA, 'etav': ZEROD},
+                                                 fields={'self.eta': ZEROD}, globals={'T3D': NA, 'T2D': NA}, returns=[ZEROD])
+CONTRACTS['GFCrystalcalc.__call__'] = dict(_G, qualname='GFCrystalcalc.__call__', params={'self': NA, 'i': NA, 'j': NA, 'dx': ZEROD},
+                                           fields={'self.maxrate': ONE}, callees={'self.exp_dxq': ZEROD, 'self.gT_ij[i][j]': ZEROD}, returns=[MINUS],
+                                           assumed=['gsc_ijq, gT_ij, g_Taylor_fnlu are built from rates divided by maxrate (degree 0: SetRates)'])
+
+Z6 = Tup([ZEROD] * 6)
+CONTRACTS['GFCrystalcalc.SetRates'] = dict(
+    _G, qualname='GFCrystalcalc.SetRates',
+    params={'self': NA, 'pre': ZEROD, 'betaene': ZEROD, 'preT': ONE, 'betaeneT': ZEROD, 'pmaxerror': ZEROD},
+    globals={'LA': NA, 'T3D': NA, 'T2D': NA, 'itertools': NA},
+    callees={'self.SymmRates': ONE, 'self.DiagGamma': Tup([ZEROD, ZEROD]), 'self.BlockRotateOmegaTaylor': Z6, 'self.Diffusivity': ONE, 'self.biascorrection': ZEROD,
+             'self.BlockInvertOmegaTaylor': ZEROD, 'LA.eigh': Tup([ZEROD, ZEROD]), 'Taylor.rotatedirections': ZEROD, 'Fnl_p': ZEROD, 'Fnl_u': ZEROD,
+             'self.g_Taylor': ZEROD},
+    # everything the evaluation of G later reads is built from rates divided by the largest rate; the rate scale survives in maxrate and D only
+    fields_after={'self.symmrate': ZEROD, 'self.maxrate': ONE, 'self.escape': ZEROD, 'self.omega_qij': ZEROD, 'self.D': ONE, 'self.eta': ZEROD,
+                  'self.pmax': ZEROD, 'self.gsc_ijq': ZEROD, 'self.g_Taylor': ZEROD},
+    assumed=['DiagGamma / BlockRotateOmegaTaylor / BlockInvertOmegaTaylor map degree-0 expansions to degree-0 expansions (linear algebra on their argument)',
+             'the Taylor-expansion methods ldot / rdot / irotate / reduce / separate / inv keep or negate the degree of the expansion (C16 / C17)'])
+
 
 # ---------------------------------------------------------------------------------------------------------------
 def run(rep, names, replay=None):
